@@ -11,6 +11,7 @@ parameters, all batch sizes and all batch partitions.
 -/
 import SharkVerif.Lemmas.Kernels
 import SharkVerif.Lemmas.KernelsPSD
+import SharkVerif.Lemmas.KernelDerivs
 import Mathlib.Analysis.Real.Sqrt
 import Mathlib.Analysis.SpecialFunctions.Exp
 set_option linter.unusedSectionVars false
@@ -527,6 +528,66 @@ theorem gram_psd (k : Kern ℝ) (h : Admissible exp k) (reg : ℝ) (hreg : 0 ≤
   exact (kernel_psd exp sqrt k h _ _).add (Matrix.PosSemidef.one.smul hreg)
 
 end psd
+end SharkVerif.C05
+
+/-! ## 6. Derivatives: the model's `weightedParameterDerivative` / `weightedInputDerivative` are the
+true derivatives (`HasDerivAt` over ℝ) of the weighted sum of kernel values
+`weightedSum κ C X1 X2 = Σᵢ Σⱼ Cᵢⱼ κ(x1ᵢ, x2ⱼ)`, for all batches, all coefficient matrices, all parameters.
+Proved for the Gaussian (γ), polynomial (offset; input) and linear kernels (Model/KernelDerivs.lean);
+the derivative code of the other kernel classes (ARD, normalised, scaled, weighted sum, sub-range,
+monomial) is NOT modelled — it is covered only by the harness' finite-difference oracle. -/
+namespace SharkVerif.C05
+open SharkVerif.Kernels
+
+/-- `GaussianRbfKernel::weightedParameterDerivative` = d/dγ Σ Cᵢⱼ exp(-γ‖x1ᵢ−x2ⱼ‖²) -/
+theorem gauss_weightedParameterDerivative (sqrt : ℝ → ℝ) (γ : ℝ) (C X1 X2 : Mat ℝ) :
+    HasDerivAt (fun g => weightedSum ((Kern.gauss g).eval Real.exp sqrt) C X1 X2)
+      (gaussParamDeriv Real.exp γ C X1 X2) γ := gauss_param_hasDerivAt sqrt γ C X1 X2
+
+/-- `PolynomialKernel::weightedParameterDerivative` (degree ≥ 1 not a parameter) = d/d(offset) Σ Cᵢⱼ (⟨x1ᵢ,x2ⱼ⟩+offset)^d,
+including the `safe_div(·,·,0)` branch where the base vanishes -/
+theorem poly_weightedParameterDerivative (exp sqrt : ℝ → ℝ) (d : ℕ) (hd : 1 ≤ d) (off : ℝ) (C X1 X2 : Mat ℝ) :
+    HasDerivAt (fun c => weightedSum ((Kern.poly d c).eval exp sqrt) C X1 X2)
+      (polyParamDeriv d off C X1 X2) off := poly_param_hasDerivAt exp sqrt d hd off C X1 X2
+
+/-- `LinearKernel::weightedInputDerivative`: entry `t` of row `i` of `prod(C, X2)` is the partial derivative of
+`Σⱼ Cᵢⱼ ⟨x, x2ⱼ⟩` with respect to coordinate `t` of `x = x1ᵢ` -/
+theorem linear_weightedInputDerivative (exp sqrt : ℝ → ℝ) (crow : List ℝ) (x : Point ℝ) (X2 : Mat ℝ) (t : ℕ)
+    (ht : t < x.length) (s₀ : ℝ) :
+    HasDerivAt (fun s => sumRow (fun c z => c * (Kern.linear : Kern ℝ).eval exp sqrt (x.set t s) z) crow X2)
+      ((gemmRow crow X2 x.length).getD t 0) s₀ := linear_input_hasDerivAt exp sqrt crow x X2 t ht s₀
+
+/-- `PolynomialKernel::weightedInputDerivative`, degree ≥ 2 (degree 1 is the linear case) -/
+theorem poly_weightedInputDerivative (exp sqrt : ℝ → ℝ) (d : ℕ) (hd : 2 ≤ d) (off : ℝ) (crow : List ℝ)
+    (x : Point ℝ) (X2 : Mat ℝ) (t : ℕ) (ht : t < x.length) :
+    HasDerivAt (fun s => sumRow (fun c z => c * (Kern.poly d off).eval exp sqrt (x.set t s) z) crow X2)
+      ((polyInputRow d off crow x X2).getD t 0) (x.getD t 0) :=
+  poly_input_hasDerivAt exp sqrt d hd off crow x X2 t ht
+
+/-- `GaussianRbfKernel::weightedInputDerivative` (all points of `X2` at least as long as coordinate `t`:
+the C++ `SIZE_CHECK`) -/
+theorem gauss_weightedInputDerivative (sqrt : ℝ → ℝ) (γ : ℝ) (crow : List ℝ) (x : Point ℝ) (X2 : Mat ℝ) (t : ℕ)
+    (ht : t < x.length) (hz : ∀ z ∈ X2, t < z.length) :
+    HasDerivAt (fun s => sumRow (fun c z => c * (Kern.gauss γ).eval Real.exp sqrt (x.set t s) z) crow X2)
+      ((gaussInputRow Real.exp γ crow x X2).getD t 0) (x.getD t 0) :=
+  gauss_input_hasDerivAt sqrt γ crow x X2 t ht hz
+
+/-- the rows of the matrix-valued derivative functions are the row functions above (structure of the C++ loops) -/
+theorem gaussInputDeriv_rows (exp : ℝ → ℝ) (γ : ℝ) (C X1 X2 : Mat ℝ) :
+    gaussInputDeriv exp γ C X1 X2 = List.zipWith (fun crow x => gaussInputRow exp γ crow x X2) C X1 := rfl
+theorem polyInputDeriv_rows (d : ℕ) (hd : d ≠ 1) (off : ℝ) (C X1 X2 : Mat ℝ) :
+    polyInputDeriv d off C X1 X2 = List.zipWith (fun crow x => polyInputRow d off crow x X2) C X1 := by
+  unfold polyInputDeriv; rw [if_neg hd]
+theorem polyInputDeriv_degree_one (off : ℝ) (C X1 X2 : Mat ℝ) :
+    polyInputDeriv 1 off C X1 X2 = linearInputDeriv C X1 X2 := by
+  unfold polyInputDeriv; rw [if_pos rfl]
+
+/-- non-vacuity of `gauss_weightedInputDerivative`: a 2-point batch in dimension 2 -/
+example : HasDerivAt (fun s => sumRow (fun c z => c * (Kern.gauss (1/2)).eval Real.exp Real.sqrt ([1, 2].set 1 s) z) [3, -1] [[0, 1], [2, 2]])
+    ((gaussInputRow Real.exp (1/2) [3, -1] [1, 2] [[0, 1], [2, 2]]).getD 1 0) 2 := by
+  have h := gauss_weightedInputDerivative Real.sqrt (1/2) [3, -1] [1, 2] [[0, 1], [2, 2]] 1 (by simp) (by simp)
+  simpa using h
+
 end SharkVerif.C05
 
 /-! ## Non-vacuity: the hypotheses of the theorems above are satisfiable (and hold for the
